@@ -110,6 +110,31 @@ pub fn leaves_json(src: &str) -> Option<Value> {
     Some(Value::Array(leaves))
 }
 
+/// the real parser's tree: nodes {"k", "leaf": false, "ch": [..]}, tokens {"k", "leaf": true, "i": n-th token, "len": bytes}
+pub fn tree_json(src: &str) -> Option<Value> {
+    use syntree::Node;
+    let tree = Parser::new(src).parse_root().ok()?;
+    fn conv(n: Node<'_, anything::syntax::parser::Syntax, u32, u32>, next: &mut usize) -> Option<Value> {
+        let sp = n.span();
+        if !n.has_children() && sp.start != sp.end {
+            // a token (tokens are never empty); an empty node has an empty span
+            *next += 1;
+            return Some(json!({"k": format!("{:?}", n.value()), "leaf": true, "i": *next, "len": (sp.end - sp.start) as usize, "ch": []}));
+        }
+        let mut ch = Vec::new();
+        for c in n.children() {
+            ch.push(conv(c, next)?);
+        }
+        Some(json!({"k": format!("{:?}", n.value()), "leaf": false, "i": 0, "len": 0, "ch": ch}))
+    }
+    let mut next = 0usize;
+    let mut top = Vec::new();
+    for c in tree.children() {
+        top.push(conv(c, &mut next)?);
+    }
+    Some(Value::Array(top))
+}
+
 pub fn record(db: &Db, src: &str, id: usize, ids: &Ids, with_tokens: bool) -> Value {
     let o = run_query(db, src, true);
     let res: Vec<Value> = o
@@ -143,6 +168,13 @@ pub fn record(db: &Db, src: &str, id: usize, ids: &Ids, with_tokens: bool) -> Va
         let leaves = std::panic::catch_unwind(|| leaves_json(src)).ok().flatten().unwrap_or(Value::Null);
         rec["toks"] = toks;
         rec["leaves"] = leaves;
+        let tree = std::panic::catch_unwind(|| tree_json(src)).ok().flatten();
+        rec["tree_ok"] = json!(tree.is_some());
+        rec["tree"] = tree.unwrap_or_else(|| json!([]));
+        rec["toks_ok"] = json!(!rec["toks"].is_null());
+        if rec["toks"].is_null() {
+            rec["toks"] = json!([]);
+        }
     }
     rec
 }
